@@ -15,7 +15,13 @@ NTU = {('C16', 'avx2'): 7, ('C16', 'avx512'): 4, ('C17', 'avx2'): 4, ('C17', 'av
 
 def steps_for(ctx, prop):
     isas = ['avx2'] + (['avx512'] if ctx.hardware_avx512 else [])
-    return [('%s_%s_%s' % (prop.lower(), isa, mode), isa, mode) for isa in isas for mode in ('plain', 'asan', 'tsan')]
+    st = [('%s_%s_%s' % (prop.lower(), isa, mode), isa, mode) for isa in isas for mode in ('plain', 'asan', 'tsan')]
+    # another build configuration of the SAME AVX2 overloads: compiled inside an AVX-512 build (-mavx512f -D__AVX512__) and with
+    # -march=native -- code behind #ifdef is code too (plain mode only)
+    if ctx.hardware_avx512:
+        st.append(('%s_avx2_plainx512' % prop.lower(), 'avx2', 'plainx512'))
+    st.append(('%s_avx2_plainxnative' % prop.lower(), 'avx2', 'plainxnative'))
+    return st
 
 
 def build(ctx, prop, main_cpp, only_step=None, extra_objs=(), extra_links=()):
@@ -42,7 +48,7 @@ def build(ctx, prop, main_cpp, only_step=None, extra_objs=(), extra_links=()):
         ctx.ovl_items, ctx.ovl_notes = g['items'], g['notes']
     for name, isa, mode in steps:
         g = gens[isa]
-        fl = ctx.flags_native(avx512=(isa == 'avx512'), omp=(mode != 'tsan'), extra=inc + (ASAN if mode == 'asan' else TSAN if mode == 'tsan' else []))
+        fl = ctx.flags_native(avx512=(isa == 'avx512' or mode == 'plainx512'), omp=(mode != 'tsan'), extra=inc + (ASAN if mode == 'asan' else TSAN if mode == 'tsan' else ['-march=native'] if mode == 'plainxnative' else []))
         mine = []
         for k, tu in enumerate(g['tus']):
             on = '%s_w%d.o' % (name, k)
